@@ -53,7 +53,7 @@ class Rule:
         return [i for i in self.instances if i["verdict"] in ("ok", "violation")]
 
 
-THOROUGH_CFGS = ["optel"]
+THOROUGH_CFGS = ["optel", "openapi", "python"]
 
 
 class Blind(Exception):
